@@ -54,13 +54,28 @@ def selections(fi: FuncInfo) -> List[Tuple[ast.AST, str, str]]:
 def _selection_text(call: ast.Call, which: str, fn) -> str:
     """what is selected, independent of the idiom: `sorted(X, key=K)[0]` and `min(X, key=K)` pick the same element"""
     key = kwarg(call, "key")
-    coll = alpha(call.args[0], fn) if call.args else "?"
+    coll = alpha(_positional_params(call.args[0], fn), fn) if call.args else "?"
     if key is None:
         return f"{which} of {coll} (elements compared directly)"
     if isinstance(key, ast.Lambda):
         txt = alpha(key, fn)   # "lambda _k: <body>"
         return f"{which} of {coll} by key {txt.split(':', 1)[1].strip() if ':' in txt else txt} (as a function of {txt.split(':', 1)[0].replace('lambda', '').strip()})"
     return f"{which} of {coll} by key {alpha(key, fn)}"
+
+
+def _positional_params(e, fn):
+    """`e` with the parameters of `fn` written by position (<arg1>, <arg2>, ..): the text keys a finding, and a renamed parameter is the same construct"""
+    import copy
+    a = fn.args
+    names = [x.arg for x in a.posonlyargs + a.args]
+    if names and names[0] in ("self", "cls"):
+        names = names[1:]
+    pos = {nm: f"arg{i + 1}" for i, nm in enumerate(names)}
+
+    class T(ast.NodeTransformer):
+        def visit_Name(self, n):
+            return ast.copy_location(ast.Name(id=pos[n.id], ctx=n.ctx), n) if n.id in pos else n
+    return T().visit(copy.deepcopy(e))
 
 
 def _tie(call: ast.Call) -> str:
